@@ -58,7 +58,7 @@ def run_unit(u, tier, pid=None):
     outt = os.path.join(BUILD, u.name + '_twin.rs'); open(outt, 'w').write(tw.text)
     open(os.path.join(BUILD, u.name + '.diff'), 'w').write(gen.diff)
     with ThreadPoolExecutor(max_workers=2) as ex:
-        f1 = ex.submit(V.run, out, (), 900, 20)   # twice the default resource limit: fewer solver-instability 'undecided' results
+        f1 = ex.submit(V.run, out, (), 900, 30)   # three times the default resource limit: fewer solver-instability 'undecided' results
         f2 = ex.submit(V.run, outt)
         r = f1.result(); rt = f2.result()
     ur.gen, ur.res = gen, r
@@ -104,7 +104,7 @@ def run_unit(u, tier, pid=None):
     ur.seeds = []
     if tier == 'thorough' and not ur.error:
         # stability: two more solver seeds and half the resource limit
-        extra = [['-V', 'smt.random_seed=7'] if False else ['--smt-option', 'smt.random_seed=7'], ['--smt-option', 'smt.random_seed=31', '--rlimit', '10']]
+        extra = [['-V', 'smt.random_seed=7'] if False else ['--smt-option', 'smt.random_seed=7'], ['--smt-option', 'smt.random_seed=31', '--rlimit', '15']]
         for ex_ in extra:
             rr = V.run(out, extra=ex_)
             v2, u2 = V.classify(rr.diags, gen)
@@ -374,7 +374,7 @@ def dev(name, twin=False):
     extra = []
     for a in sys.argv:
         if a.startswith('--fn='): extra = ['--verify-function', a[5:]]
-    r = V.run(out, extra=extra, rlimit=20)
+    r = V.run(out, extra=extra, rlimit=30)
     ver, unsup = V.classify(r.diags, gen)
     print(f'verus: verified={r.verified} errors={r.errors} wall={r.wall:.1f}s smt={r.smt_ms}ms results={r.have_results}')
     for d in unsup:
